@@ -64,6 +64,9 @@ class Z3Logic:
         x = self.num(x)
         return z3.If(x >= 0, x, -x)
 
+    def pow(self, x, c):
+        return core.pow_fn(c)(self.num(x))
+
     def ite(self, c, a, b):
         return z3.If(c, self.num(a), self.num(b))
 
@@ -172,6 +175,7 @@ class KleeneLogic:
     def round0(self, x): return round(self.num(x))
     def round2(self, x): return round(self.num(x), 2)
     def abs(self, x): return abs(self.num(x))
+    def pow(self, x, c): return self.num(x) ** float(c)
 
     def ite(self, c, a, b):
         c = _k(c).v
